@@ -65,7 +65,8 @@ func (e *extTable) resolve(q string) error {
 			code = 1
 		}
 	case "timeparse":
-		if _, err := time.Parse(a, b); err == nil {
+		// what the date rules ask of the stdlib: the value parses and formats back to itself
+		if t, err := time.Parse(a, b); err == nil && t.Format(a) == b {
 			code = 1
 		}
 	case "atoierr":
